@@ -30,9 +30,10 @@ pub enum Defect {
     TextAfterString,
     BareDirective,
     TruncatedStatement,
+    DataListStray,
 }
 
-pub const DEFECTS: [Defect; 17] = [
+pub const DEFECTS: [Defect; 18] = [
     Defect::WrongOperandType,
     Defect::MissingLastOperand,
     Defect::ExtraOperand,
@@ -50,6 +51,7 @@ pub const DEFECTS: [Defect; 17] = [
     Defect::TextAfterString,
     Defect::BareDirective,
     Defect::TruncatedStatement,
+    Defect::DataListStray,
 ];
 
 impl Defect {
@@ -72,7 +74,13 @@ impl Defect {
             Defect::TextAfterString => "text-after-closing-quote",
             Defect::BareDirective => "directive-without-operands",
             Defect::TruncatedStatement => "statement-cut-after-a-token",
+            Defect::DataListStray => "stray-token-in-a-data-list",
         }
+    }
+    /// Does the malformed line certainly contain something that is no token of the language (so that
+    /// silence about it means that text was dropped)?
+    pub fn must_error(self) -> bool {
+        matches!(self, Defect::StrayAt | Defect::StrayDollar | Defect::NonAscii | Defect::UnterminatedString | Defect::UnterminatedChar | Defect::DataListStray)
     }
     /// The malformed replacement for an instruction line `orig` (already trimmed of comments).
     pub fn apply(self, orig: &str, rng: &mut Rng) -> String {
@@ -129,6 +137,15 @@ impl Defect {
                 }
                 format!("{indent}{t}")
             }
+            Defect::DataListStray => {
+                let dir = *rng.pick(&[".word", ".byte", ".half"]);
+                let tail = *rng.pick(&["@", "$", "\u{e9}", "\"open", "'a", "1 @ 2", "@ 3", "% 4"]);
+                match rng.below(3) {
+                    0 => format!("{indent}{dir} 5, 6 {tail}"),
+                    1 => format!("{indent}{dir} 7 {tail}"),
+                    _ => format!("{indent}{dir} {tail}"),
+                }
+            }
         }
     }
 }
@@ -177,7 +194,7 @@ pub fn run(ctx: &Ctx) -> i32 {
     let mut rep = Report::new(
         ctx,
         "files of one statement per line (generated programs incl. data sections, with or without a header comment / final newline); one line is replaced by a malformed one \
-         (17 defect kinds: wrong / missing / extra operand, unknown mnemonic or directive, stray + ; @ $ :, non-ASCII letter, lone CR, unterminated string or char, text after a closing quote, a directive without operands, a statement cut after any token) at the first, a middle or \
+         (18 defect kinds: wrong / missing / extra operand, unknown mnemonic or directive, stray + ; @ $ :, non-ASCII letter, lone CR, unterminated string or char, text after a closing quote, a directive without operands, a statement cut after any token, a stray token in a data list) at the first, a middle or \
          the last line, or two consecutive lines; also whole-file CR/LF endings and a final line truncated after each token with and without newline. Oracle: (coverage) every non-blank, non-comment line has a node starting on it \
          (or inside a multi-line data list) or a parse error located on it; (containment) all other lines yield exactly the nodes they yield when the bad line is blank, and no errors. \
          distinct_nontrivial = distinct mutated files judged",
@@ -252,6 +269,13 @@ pub fn run(ctx: &Ctx) -> i32 {
                 for b in &bad_set {
                     // a lone CR keeps the line well-formed for assemblers; node or error both count
                     let covered = pb.0.contains_key(b) || pb.1.contains_key(b);
+                    if d.must_error() && !pb.1.contains_key(b) && covered {
+                        acc.violation(
+                            format!("C07|dropped-token|{}|{pos}", d.name()),
+                            format!("malformed line {} `{}` contains something that is no token of the language, but no error is reported on it", b + 1, bad[*b].trim().escape_debug()),
+                            replay.clone(),
+                        );
+                    }
                     if !covered {
                         let elsewhere = pb.1.keys().next().copied();
                         acc.violation(
